@@ -50,12 +50,14 @@ package uu
 //@ func MaxEncodedLen(b) (n)
 //@   locals b
 //@   props C15
+//@   terminates
 //@   ensures never_underestimates: n >= encLen(len(b))
 //@   ensures formula: n == 63 * (1 + len(b)/45)
 
 //@ func MaxDecodedLen(b) (n)
 //@   locals b
 //@   props C15
+//@   terminates
 //@   ensures formula: n == 1 + (len(b)*16)/3
 //@   ensures at_least_the_input_length: n >= len(b)
 
@@ -65,6 +67,7 @@ package uu
 //@ func AppendDecode(dst, src) (res, err)
 //@   locals dst src lineN line nDec encLen offset nDecRem chunk i v i v err dec
 //@   props C15
+//@   terminates
 //@   modifies Mem(dst)
 //@   requires spare_capacity_of_dst_does_not_overlap_src: disjointSpare(dst, src)
 //@   ensures source: forall(i, 0 <= i && i < len(src), src[i] == old(src[i]))
@@ -147,6 +150,7 @@ package uu
 //@ func AppendEncode(dst, src) (res)
 //@   locals dst src line chunk enc i v i
 //@   props C15
+//@   terminates
 //@   modifies Mem(dst)
 //@   requires spare_capacity_of_dst_does_not_overlap_src: disjointSpare(dst, src)
 //@   ensures length: len(res) == len(dst) + encLen(len(src))
